@@ -25,7 +25,8 @@ KNOWN = ("C01-NONLIT", "C01-NONLIT-KLS", "C13-DEC0")
 
 @st.composite
 def cases(draw, tier="quick"):
-    g = draw(gg.general(inst_props=(RDF_TYPE, RDF_TYPE, RDF_TYPE, "http://ex.org/isA", gg.INST_PROPS[2])))
+    big = draw(st.integers(0, 5)) == 0      # now and then more instances per class and higher cardinalities
+    g = draw(gg.general(max_nodes=12 if big else 7, max_stmts=48 if big else 30, inst_props=(RDF_TYPE, RDF_TYPE, RDF_TYPE, "http://ex.org/isA", gg.INST_PROPS[2])))
     cfg = draw(gg.switches())
     cfg["instances_report_mode"] = draw(st.sampled_from(["mixed", "mixed", "mixed", "mixed", "ratio", "abs"]))
     d = draw(st.sampled_from([-1, -1, -1, -1, 2, 5, 1]))
